@@ -357,7 +357,7 @@ struct StoreRun {
             if (!lv.empty()) violation("ledger", lv + ctx);
             if (asim::live_serials() != serials0) violation("leak", "after the call (and deleting its result) " + I((int64_t)asim::live_blocks() - (int64_t)live0) + " block(s) more are allocated than before:" + asim::describe_live(4) + ctx);
             int before = cut > 0 && (size_t)cut <= bytes.size() ? (unsigned char)bytes[(size_t)cut - 1] : -1, after = (cut >= 0 && (size_t)cut < bytes.size()) ? (unsigned char)bytes[(size_t)cut] : -1;
-            if (!bytes.empty()) { stats.nontrivial++; stats.state_hashes.push_back(mix64((uint64_t)(byte_class(before) * 16 + byte_class(after)), (uint64_t)(entry * 4 + (term ? 1 : 0) + (cut >= 0 ? 2 : 0)))); }
+            if (!bytes.empty()) { stats.nontrivial++; stats.state_hashes.push_back(mix64(mix64((uint64_t)(byte_class(before) * 16 + byte_class(after)), (uint64_t)(entry * 4 + (term ? 1 : 0) + (cut >= 0 ? 2 : 0))), hash_str(lastfault + verdict))); }
             log.add("parse e" + I(entry) + " f" + I(flags) + " n" + I((int64_t)n) + " -> " + verdict);
             return;
         }
